@@ -8,6 +8,9 @@ import (
 
 func ProcessInput(jsonldText string, debug bool, receiver *chan e.Event) (any, error) {
 	dispatchEvent(e.NewEvent(e.InputDataParsingStart), receiver)
+	if err := verifFault("input_parse"); err != nil {
+		return nil, err
+	}
 	decoder := json.NewDecoder(bytes.NewBuffer([]byte(jsonldText)))
 	decoder.UseNumber()
 
@@ -18,6 +21,9 @@ func ProcessInput(jsonldText string, debug bool, receiver *chan e.Event) (any, e
 	dispatchEvent(e.NewEvent(e.InputDataParsingDone), receiver)
 
 	dispatchEvent(e.NewEvent(e.InputDataNormalizationStart), receiver)
+	if err := verifFault("normalize"); err != nil {
+		return nil, err
+	}
 	normalizedInput := Index(Normalize(input))
 	dispatchEvent(e.NewEvent(e.InputDataNormalizationDone), receiver)
 
